@@ -312,6 +312,94 @@ def encodeRanges (hf : HashFns H) (fl : Flavour) (data : List UInt8) (ob : Store
   | none => ⟨[], .panic⟩
   | some plan => encodePlainLoop hf fl data ob plan []
 
+/-! ### fault-aware encoders (C10) -/
+
+/-- io objects of an encoder -/
+inductive EncObj | data | ob | w
+deriving Repr, DecidableEq, BEq
+
+/-- fail the `k`-th call (0-based) on object `obj` with an io error of kind `kind` -/
+structure EncFault where
+  obj : EncObj
+  k : Nat
+  kind : IoKind
+deriving Repr
+
+/-- does the `n`-th call on `o` fail? -/
+def EncFault.hits (f : Option EncFault) (o : EncObj) (n : Nat) : Option IoErr :=
+  match f with
+  | some ⟨obj, k, kind⟩ => if obj == o && k == n then some ⟨kind, true⟩ else none
+  | none => none
+
+/-- error of a failed stream write: `maybe_parent_write` / `maybe_leaf_write` in the fsm flavour,
+plain `?` in the sync flavour -/
+def writeErr (fl : Flavour) (e : IoErr) (isParent : Bool) (label : Nat) : EncodeError :=
+  match fl with
+  | .sync => .io e
+  | .fsm => if isParent then EncodeError.maybeParentWrite e label else EncodeError.maybeLeafWrite e label
+
+/-- the loop of `encode_ranges_validated` (`validate = true`) / `encode_ranges` (`false`) with an
+injected fault; counters: calls made so far on data / outboard / writer -/
+def encodeLoopF (hf : HashFns H) [BEq H] (fl : Flavour) (validate : Bool) (data : List UInt8) (ob : Store H)
+    (fault : Option EncFault) :
+    List Chunk → List H → List UInt8 → Nat → Nat → Nat → EncRun
+  | [], _, out, _, _, _ => ⟨out, .ok⟩
+  | .parent node isRoot left right _ :: plan, stack, out, nd, no, nw =>
+    match EncFault.hits fault .ob no with
+    | some e => ⟨out, .err (.io e)⟩
+    | none =>
+    match ob.load hf fl node with
+    | .err e => ⟨out, .err (.io e)⟩
+    | .panic => ⟨out, .panic⟩
+    | .ok none => ⟨out, .panic⟩
+    | .ok (some (l, r)) =>
+      let cont (stack : List H) : EncRun :=
+        match EncFault.hits fault .w nw with
+        | some e => ⟨out, .err (writeErr fl e true node)⟩
+        | none => encodeLoopF hf fl validate data ob fault plan stack (out ++ hf.toBytes l ++ hf.toBytes r) nd (no + 1) (nw + 1)
+      if validate then
+        match stack with
+        | [] => ⟨out, .panic⟩
+        | expected :: stack =>
+          if hf.parentCv l r isRoot != expected then ⟨out, .err (.parentHashMismatch node)⟩
+          else
+            let stack := if right then r :: stack else stack
+            let stack := if left then l :: stack else stack
+            cont stack
+      else cont stack
+  | .leaf start size isRoot ranges :: plan, stack, out, nd, no, nw =>
+    let go (stack : List H) (expected : Option H) : EncRun :=
+      match EncFault.hits fault .data nd with
+      | some e => ⟨out, .err (.io e)⟩
+      | none =>
+      match readExactAt data (toBytes start) size with
+      | .error e => ⟨out, .err (.io e)⟩
+      | .ok buf =>
+        let (actual, toWrite) :=
+          if !Ranges.isAll ranges then
+            encodeSelectedRec hf recFuel start buf isRoot ranges ob.tree.bs true
+          else (hashSubtree hf start buf isRoot, buf)
+        if (match expected with | some e => actual != e | none => false) then ⟨out, .err (.leafHashMismatch start)⟩
+        else
+          match EncFault.hits fault .w nw with
+          | some e => ⟨out, .err (writeErr fl e false start)⟩
+          | none => encodeLoopF hf fl validate data ob fault plan stack (out ++ toWrite) (nd + 1) no (nw + 1)
+    if validate then
+      match stack with
+      | [] => ⟨out, .panic⟩
+      | expected :: stack => go stack (some expected)
+    else go stack none
+
+/-- `encode_ranges_validated` / `encode_ranges` with an injected fault -/
+def encodeRangesF (hf : HashFns H) [BEq H] (fl : Flavour) (validate : Bool) (data : List UInt8) (ob : Store H)
+    (ranges : Ranges) (fault : Option EncFault) : EncRun :=
+  if validate && fl == .sync && ranges.isEmpty then ⟨[], .ok⟩
+  else
+    let ranges := Ranges.truncate ranges ob.tree.size
+    match ob.tree.prePartialChunks ranges 0 with
+    | none => ⟨[], .panic⟩
+    | some plan => encodeLoopF hf fl validate data ob fault plan [ob.root] [] 0 0 0
+
 /-! ## outboard creation -/
 
 /-- result of an outboard computation: the root and the updated sink -/
